@@ -99,16 +99,17 @@ type Ctx struct {
 
 	evals atomic.Int64
 
-	mu         sync.Mutex
-	nontrivial map[uint64]struct{}
-	samples    []interface{}
-	viol       map[string]*Violation
-	violOrder  []string
-	extra      map[string]interface{}
-	assume     []string
-	rule       string
-	exhaustive bool
-	notes      []string
+	mu          sync.Mutex
+	nontrivial  map[uint64]struct{}
+	nontrivialN atomic.Int64 // non-trivial cases counted by harnesses whose cases are distinct by construction (de-duplicated locally)
+	samples     []interface{}
+	viol        map[string]*Violation
+	violOrder   []string
+	extra       map[string]interface{}
+	assume      []string
+	rule        string
+	exhaustive  bool
+	notes       []string
 
 	states, transitions, traces int64
 	deadline                    time.Time
@@ -348,6 +349,11 @@ func safeShard(fn func(int), s int) {
 	}()
 	fn(s)
 }
+
+// NontrivialN adds n non-trivial cases that the harness knows to be distinct from every other case it
+// reports (it enumerates them without repetition, or has removed repetitions itself): hundreds of millions
+// of hashes need not be kept to count them.
+func (c *Ctx) NontrivialN(n int64) { c.nontrivialN.Add(n) }
 
 // Eval counts one evaluated case.
 func (c *Ctx) Eval() { c.evals.Add(1) }
@@ -616,7 +622,7 @@ func (c *Ctx) Finish() int {
 		cov[k] = v
 	}
 	cov["evaluations"] = c.evals.Load()
-	cov["distinct_nontrivial"] = len(c.nontrivial)
+	cov["distinct_nontrivial"] = int64(len(c.nontrivial)) + c.nontrivialN.Load()
 	cov["rule"] = c.rule
 	if len(c.samples) == 0 {
 		c.samples = append(c.samples, "none recorded")
@@ -652,7 +658,7 @@ func (c *Ctx) Finish() int {
 		fmt.Fprintln(os.Stderr, "evidence:", err)
 	}
 	fmt.Printf("%s %s: evaluations=%d distinct_nontrivial=%d exhaustive=%v violations=%d known=%d wall=%.1fs\n",
-		c.ID, c.Tier, c.evals.Load(), len(c.nontrivial), c.exhaustive, len(unknown), len(known), time.Since(c.start).Seconds())
+		c.ID, c.Tier, c.evals.Load(), int64(len(c.nontrivial))+c.nontrivialN.Load(), c.exhaustive, len(unknown), len(known), time.Since(c.start).Seconds())
 	if len(unknown) > 0 {
 		return 1
 	}
